@@ -315,27 +315,48 @@ def sliceout(ctx):
             ctx.ob('SLICEOUT', k, False, short_loc(b.span), 'no arm for Kind::%s in compressed_buffer' % k)
             continue
         got = None
+
+        def what(o):
+            idx = [c for c in o.calls if call_matches(c, ['Index::index', 'Index<I>>::index', 'index::Index<I>>::index'])]
+            if 'output_vec' not in o.fields:
+                # (the caller's own uncompressed block handed back: the `None` of the Option form)
+                return 'none' if o.params() == {2} and not o.call_names() and not o.has_arith() else 'not output_vec'
+            if not idx:
+                return 'whole'
+            ro = origin(b, idx[0]['args'][1])
+            rt = any(a[0] == 'agg' and a[1].endswith('RangeTo') for a in ro.atoms)
+            if rt and any(cname(c).endswith('::total_out') for c in ro.calls) and not ro.has_arith():
+                return 'total_out'
+            if rt and 'len' in ro.fields and not ro.has_arith() and not ro.call_names():
+                return 'len'
+            return 'other slice (%s)' % ro.describe()[:80]
+        returns_option = 'Option<' in (b.local_ty(0) or '')
+        # the match's value may go through a temporary: `_3 = <arm value>` in each arm, `_0 = &*_3` after the join
+        res_locals = {0}
+        grew = True
+        while grew:
+            grew = False
+            for bb_ in b.live_blocks():
+                for s_ in b.stmts(bb_):
+                    if 'assign' in s_ and s_['assign'].get('l') in res_locals and not s_['assign'].get('p'):
+                        rv_ = s_['rv']
+                        pl_ = op_place(rv_['op']) if rv_['k'] == 'use' else (rv_.get('place') if rv_['k'] in ('ref', 'rawptr') else None)
+                        if pl_ is not None and all(e == '*' for e in pl_.get('p', [])) and pl_['l'] not in res_locals and pl_['l'] > b.nargs:
+                            res_locals.add(pl_['l'])
+                            grew = True
         for bb in sorted(r.blocks):
             for s in b.stmts(bb):
-                if 'assign' in s and s['rv']['k'] == 'agg' and s['rv'].get('adt') == 'core::option::Option':
+                if returns_option and 'assign' in s and s['rv']['k'] == 'agg' and s['rv'].get('adt') == 'core::option::Option':
                     if s['rv']['variant'] == 'None':
                         got = 'none'
                     else:
-                        o = origin(b, s['rv']['ops'][0])
-                        idx = [c for c in o.calls if call_matches(c, ['Index::index', 'Index<I>>::index', 'index::Index<I>>::index'])]
-                        if 'output_vec' not in o.fields:
+                        got = what(origin(b, s['rv']['ops'][0]))
+                        if got == 'none':
                             got = 'not output_vec'
-                        elif not idx:
-                            got = 'whole'
-                        else:
-                            ro = origin(b, idx[0]['args'][1])
-                            rt = any(a[0] == 'agg' and a[1].endswith('RangeTo') for a in ro.atoms)
-                            if rt and any(cname(c).endswith('::total_out') for c in ro.calls) and not ro.has_arith():
-                                got = 'total_out'
-                            elif rt and 'len' in ro.fields and not ro.has_arith() and not ro.call_names():
-                                got = 'len'
-                            else:
-                                got = 'other slice (%s)' % ro.describe()[:80]
+                elif not returns_option and 'assign' in s and s['assign'].get('l') in res_locals and not s['assign'].get('p'):
+                    # `fn compressed_buffer<'a>(&'a self, uncompressed: &'a [u8]) -> &'a [u8]`: the arm's value is the result
+                    rv = s['rv']
+                    got = what(origin(b, rv['op'] if rv['k'] == 'use' else (rv.get('place') if rv['k'] in ('ref', 'rawptr') else s['assign'])))
         ctx.ob('SLICEOUT', k, got == w, short_loc(b.span), 'compressed_buffer for %s returns %s (expected %s)' % (k, got, w))
 
 
@@ -502,6 +523,11 @@ def consumed(ctx):
                 continue
             te = try_edges(b, bb)
             if te is None or te[1] is None or not all_paths_err(b, te[1]):
+                continue
+            # the probe goes through the buffered layer the objects were decoded from: decompressed bytes that layer
+            # already pulled into its buffer are data left in the block too (asking the decompressor underneath skips them)
+            rty = (t.get('arg_tys') or [''])[0].lstrip('&').replace('mut ', '', 1).strip()
+            if not re.match(r'(std::io::(buffered::bufreader::)?)?BufReader<', rty):
                 continue
             # the buffer read into holds at least one byte (a read into an empty buffer returns 0 whatever is left)
             bo = origin(b, t['args'][1])
